@@ -51,7 +51,7 @@ CHECKS = {
  "C17": ("translation validation by co-execution: generated parser vs an independent interpreter executing /repo/jsonpath.peg itself, restriction oracle, position/near check",
          "translation_validation", "Every string is parsed by both parsers and the verdicts compared (accept/reject, error class, offset, near). Language equality is decided only on the strings tried; grammar-derived strings exercise every character-class boundary.",
          "/repo/jsonpath.peg is the published grammar; PEGI implements PEG semantics for the syntax subset the file uses", "4/C17"),
- "C18": ("relational monitor: canonical rendering vs 3..6 random spellings of one AST (spaces, quotes, integer spelling, .*/[*], .name/['name'], omitted $)",
+ "C18": ("relational monitor: canonical rendering vs 3..6 random spellings of one AST (spaces, quotes, integer spelling, .*/[*], .name/['name'], omitted $), plus the same raw text between single and double quotes as a name and as a filter string literal, and multi-digit integers with + / leading zeros",
          "exploration", HELD, "the renderer's list of insignificant variations is the property's list", "4/C18"),
  "C19": ("history monitor over Parse sequences vs the same call made first in a fresh child process; Config mutated after Parse; parser-residue hook",
          "exploration", HELD, "first call of a fresh process = history-free meaning of Parse(path, config)", "4/C19"),
